@@ -1469,8 +1469,11 @@ def evaluate__parse_xml(self: XPathFunction, context: ta.ContextType = None) \
             root = etree.XML(defuse_xml(arg.encode('utf-8')))
         else:
             root = etree.XML(arg.encode('utf-8'))
-    except etree.ParseError:
-        raise self.error('FODC0006')
+    except ElementPathError:
+        raise
+    except (etree.ParseError, LookupError, ValueError):
+        # also an unknown encoding or an encoding declaration that the parser refuses
+        raise self.error('FODC0006') from None
     else:
         return cast(DocumentNode, get_node_tree(etree.ElementTree(root), self.parser.namespaces))
 
@@ -1510,6 +1513,11 @@ def evaluate__parse_xml_fragment(self: XPathFunction, context: ta.ContextType = 
             root = etree.XML(defuse_xml(arg))
         else:
             root = etree.XML(arg)
+    except ElementPathError:
+        raise
+    except (LookupError, ValueError) as err:
+        # an unknown encoding or an encoding declaration that the parser refuses
+        raise self.error('FODC0006', str(err)) from None
     except etree.ParseError as err:
         # A not parsable fragment: try to parse including XML data in a dummy element.
         try:
